@@ -525,12 +525,12 @@ Qed.
 
 Lemma s_terminate_releases (c : scfg) (s : sst) (n : N) (x : ssess) :
   aget n (ssn s) = Some x -> ((ss_ip x =? 0) || smem (ss_ip x) (salloc s)) = true ->
-  let r := sstep c s (STerminate n) in
+  forall ctx, let r := sstep c s (STerminate n ctx false) in
   sheld (fst (fst r)) (ss_mac x) (ss_ip x) = [] /\
   snd (fst r) = (0, (if ss_ip x =? 0 then [] else [(5, ss_ip x)]) ++ [(6, n)]) /\
   aget n (ssn (fst (fst r))) = None.
 Proof.
-  intros H G. unfold sstep, sterm. rewrite H. simpl. split; [|split].
+  intros H G ctx. unfold sstep, sterm. rewrite H. simpl. rewrite !andb_true_r. split; [|split].
   - unfold sheld. simpl. rewrite ahas_adel_same.
     destruct (ss_ip x =? 0) eqn:Z; simpl; auto.
     simpl in G. rewrite G. simpl. rewrite smem_sdel_same, smem_app_last, ahas_adel_same. reflexivity.
@@ -539,21 +539,21 @@ Proof.
 Qed.
 
 (* terminating twice: the second call reports "not found" and changes nothing, emits nothing *)
-Lemma s_terminate_twice (c : scfg) (s : sst) (n : N) :
-  let s1 := fst (fst (sstep c s (STerminate n))) in sstep c s1 (STerminate n) = (s1, (1, []), []).
+Lemma s_terminate_twice (c : scfg) (s : sst) (n ctx1 ctx2 : N) (f1 f2 : bool) :
+  let s1 := fst (fst (sstep c s (STerminate n ctx1 f1))) in sstep c s1 (STerminate n ctx2 f2) = (s1, (1, []), []).
 Proof.
   destruct (aget n (ssn s)) as [x|] eqn:H.
-  - assert (G : aget n (ssn (fst (fst (sstep c s (STerminate n))))) = None).
+  - assert (G : aget n (ssn (fst (fst (sstep c s (STerminate n ctx1 f1))))) = None).
     { unfold sstep, sterm. rewrite H. simpl. apply aget_adel_same. }
-    cbv zeta. remember (fst (fst (sstep c s (STerminate n)))) as s1 eqn:Q. clear Q.
+    cbv zeta. remember (fst (fst (sstep c s (STerminate n ctx1 f1)))) as s1 eqn:Q. clear Q.
     unfold sstep, sterm. now rewrite G.
-  - assert (E : sstep c s (STerminate n) = (s, (1, []), [])) by (unfold sstep, sterm; now rewrite H).
-    rewrite E. simpl. exact E.
+  - assert (E : forall cx f, sstep c s (STerminate n cx f) = (s, (1, []), [])) by (intros; unfold sstep, sterm; now rewrite H).
+    rewrite (E ctx1 f1). simpl. apply (E ctx2 f2).
 Qed.
 
 Definition cfgS : scfg := {| sc_avail0 := [2;3;4;5]; sc_stimeout := 86400%Z; sc_itimeout := 1800%Z |}.
 Definition stS : sst :=
-  fold_left (fun s o => fst (fst (sstep cfgS s o))) [SCreate 1; SAuth 1 true; SAssign 1; SActivate 1] (sinit cfgS).
+  fold_left (fun s o => fst (fst (sstep cfgS s o))) [SCreate 1; SAuth 1 true 0; SAssign 1 0; SActivate 1] (sinit cfgS).
 
 Lemma s_guard_satisfiable :
   exists x, aget 1 (ssn stS) = Some x /\ ((ss_ip x =? 0) || smem (ss_ip x) (salloc stS)) = true /\
@@ -581,4 +581,27 @@ Proof.
                  (concat (repeat [(5, ss_ip x); (6, n)] k))))) = k).
   { induction k; simpl; auto. rewrite N.eqb_refl. simpl. now f_equal. }
   rewrite count_cons_same. unfold count. rewrite K. subst rhs. lia.
+Qed.
+
+(* whatever the caller's context and whatever the allocator answers, TerminateSession on a session that
+   is in the table succeeds and removes it: no attempt leaves a session that later attempts cannot end *)
+Lemma s_terminate_never_stuck (c : scfg) (s : sst) (n ctx : N) (rf : bool) (x : ssess) :
+  aget n (ssn s) = Some x ->
+  let r := sstep c s (STerminate n ctx rf) in
+  fst (snd (fst r)) = 0 /\ aget n (ssn (fst (fst r))) = None /\ In (6, n) (snd (snd (fst r))).
+Proof.
+  intro H. unfold sstep, sterm. rewrite H. simpl. repeat split.
+  - apply aget_adel_same.
+  - apply in_or_app. right. left. reflexivity.
+Qed.
+
+(* ... but when the allocator's release fails the session is removed all the same and its address stays
+   allocated, with no session left through which it could be released *)
+Lemma s_release_error_refuted :
+  exists c s n x, aget n (ssn s) = Some x /\
+    aget n (ssn (fst (fst (sstep c s (STerminate n 0 true))))) = None /\
+    sheld (fst (fst (sstep c s (STerminate n 0 true)))) (ss_mac x) (ss_ip x) <> [].
+Proof.
+  exists cfgS, stS, 1, {| ss_mac := 1; ss_state := 4; ss_ip := 2; ss_age := 0; ss_idle := 0 |}.
+  repeat split; try (vm_compute; reflexivity). vm_compute. discriminate.
 Qed.
